@@ -51,6 +51,7 @@ type c05Step struct {
 	size           int64
 	t              int64
 	verbatimTarget bool
+	badPattern     bool // Glob: the last element is ill-formed (compared only where a lazy matcher reports it too)
 	rootMeta       bool // Glob, absolute style: the pattern's special character sits in the element directly below "/"
 }
 
@@ -82,6 +83,8 @@ func (s c05Step) String() string {
 		return fmt.Sprintf("Chmod(%q, %v)", s.p1, s.mode)
 	case "Truncate":
 		return fmt.Sprintf("Truncate(%q, %d)", s.p1, s.size)
+	case "SetSizeAndMode":
+		return fmt.Sprintf("one SETSTAT(%q, size=%d, mode=%v)", s.p1, s.size, s.mode)
 	case "Chtimes":
 		return fmt.Sprintf("Chtimes(%q, %d)", s.p1, s.t)
 	case "Rename", "PosixRename", "Link", "Symlink":
@@ -89,6 +92,8 @@ func (s c05Step) String() string {
 	}
 	return fmt.Sprintf("%s(%q)", s.op, s.p1)
 }
+
+var errC05NotCompared = errors.New("vf: outcome not comparable")
 
 func c05Category(err error) string {
 	switch {
@@ -126,7 +131,7 @@ func c05ErrText(err error) (s string) {
 	return err.Error()
 }
 
-var c05Names = []string{"a", "b", "c", "d", "d/x", "d/y", "d/e", "d/e/z", "l", "m", "nope", "nope/q", "a/sub"}
+var c05Names = []string{"a", "b", "c", "d", "d/x", "d/y", "d/e", "d/e/z", "l", "m", "nope", "nope/q", "a/sub", "...", "d/...."}
 
 func c05Gen(r *vfRand, n int, unpriv, relative bool) []c05Step {
 	var out []c05Step
@@ -136,7 +141,7 @@ func c05Gen(r *vfRand, n int, unpriv, relative bool) []c05Step {
 		names = append(append([]string(nil), names...), "../s", "../s/t", "d/../../s", "../s", "../wd/a")
 	}
 	pick := func() string { return vfPick(r, names) }
-	ops := []string{"Mkdir", "MkdirAll", "Create", "OpenFile", "Remove", "RemoveDirectory", "RemoveAll", "Rename", "PosixRename", "Link", "Symlink", "ReadLink", "Stat", "Lstat", "Chmod", "Chtimes", "Truncate", "ReadDir", "Glob", "Walk", "RealPath", "StatVFS"}
+	ops := []string{"Mkdir", "MkdirAll", "Create", "OpenFile", "Remove", "RemoveDirectory", "RemoveAll", "Rename", "PosixRename", "Link", "Symlink", "ReadLink", "Stat", "Lstat", "Chmod", "Chtimes", "Truncate", "ReadDir", "Glob", "Walk", "RealPath", "StatVFS", "SetSizeAndMode"}
 	for i := 0; i < n; i++ {
 		s := c05Step{op: ops[r.Intn(len(ops))], p1: pick(), p2: pick()}
 		if unpriv && i >= 6 && r.Intn(7) == 0 {
@@ -184,6 +189,11 @@ func c05Gen(r *vfRand, n int, unpriv, relative bool) []c05Step {
 			}
 		case "Truncate":
 			s.size = int64(vfPick(r, []int{0, 1, 5, 100}))
+		case "SetSizeAndMode":
+			// one request that carries a size and a mode: applied like Truncate followed by Chmod
+			s.size = int64(vfPick(r, []int{0, 3, 50}))
+			s.mode = os.FileMode(vfPick(r, []int{0o444, 0o600, 0o400, 0o644, 0o200}))
+			s.p1 = vfPick(r, []string{"a", "b", "c", "d/x", "d/y", "nope", "d"})
 		case "Chtimes":
 			s.t = 1400000000 + int64(r.Intn(100000))
 		case "Symlink":
@@ -196,6 +206,11 @@ func c05Gen(r *vfRand, n int, unpriv, relative bool) []c05Step {
 			s.p1 = vfPick(r, []string{"*", "d/*", "?", "[ab]", "*/*", "d/e/*", "nope/*", "d/[xy]", "a*", "\\a", "d/\\x", "\\d/x", "\\d/*", "d/e/\\z", "[a-c]", "d/?", "l/*", "*/x"})
 			// absolute style, now and then: a special character already in the element directly below "/"
 			s.rootMeta = !relative && r.Intn(4) == 0
+			if !s.rootMeta && r.Intn(6) == 0 {
+				// an ill-formed last element below a literal directory part
+				s.p1 = vfPick(r, []string{"[", "d/[", "d/[a-", "d/e/[^", "d/x\\", "[a", "d/*["})
+				s.badPattern = true
+			}
 		case "Walk":
 			s.p1 = vfPick(r, []string{".", "d", "d/e", "a"})
 		}
@@ -319,6 +334,11 @@ func c05Ref(s c05Side, st c05Step) (string, error) {
 		return "", os.Chtimes(p1, time.Unix(st.t+5, 0), time.Unix(st.t, 0))
 	case "Truncate":
 		return "", os.Truncate(p1, st.size)
+	case "SetSizeAndMode":
+		if err := os.Truncate(p1, st.size); err != nil {
+			return "", err
+		}
+		return "", os.Chmod(p1, st.mode)
 	case "ReadDir":
 		ents, err := os.ReadDir(p1)
 		if err != nil {
@@ -338,6 +358,15 @@ func c05Ref(s c05Side, st c05Step) (string, error) {
 		pat := filepath.Join(s.root, st.p1)
 		if st.rootMeta {
 			pat = c05RootMeta(pat)
+		}
+		if st.badPattern {
+			// filepath.Glob reports an ill-formed pattern at once; the client's matcher (like filepath.Glob before
+			// go1.16) when it first applies the element to a name. Compared where both must report it: the directory
+			// part exists, can be listed and has an entry.
+			pat = s.root + "/" + st.p1 // (filepath.Join would clean a trailing backslash-less element the same way; keep the text)
+			if ents, derr := os.ReadDir(filepath.Dir(pat)); derr != nil || len(ents) == 0 {
+				return "", errC05NotCompared
+			}
 		}
 		m, err := filepath.Glob(pat)
 		var l []string
@@ -486,6 +515,11 @@ func c05Sut(c *Client, s c05Side, st c05Step) (string, error) {
 		return "", c.Chtimes(p1, time.Unix(st.t+5, 0), time.Unix(st.t, 0))
 	case "Truncate":
 		return "", c.Truncate(p1, st.size)
+	case "SetSizeAndMode":
+		return "", c.setstat(p1, sshFileXferAttrSize|sshFileXferAttrPermissions, struct {
+			Size uint64
+			Perm uint32
+		}{uint64(st.size), toChmodPerm(st.mode)})
 	case "ReadDir":
 		ents, err := c.ReadDir(p1)
 		if err != nil {
@@ -690,6 +724,10 @@ func c05Run(u *vfUnit) {
 				}
 			}
 			u.SetAdd("operations", st.op)
+			if wantErr == errC05NotCompared {
+				u.Count("ill_formed_patterns_not_compared", 1)
+				continue
+			}
 			wc, gc := c05Category(wantErr), c05Category(gotErr)
 			u.SetAdd("outcome_categories", wc)
 			u.Eval(fmt.Sprintf("%s/%s/%s", st.op, wc, style))
